@@ -358,3 +358,46 @@ func ZZ_C01_everyPhaseOccupiesItsNode() {
 	nondet.Reach("C01.phase.succeeded-pod-keeps-its-node", phase == corev1.PodSucceeded && created0 == 0)
 	nondet.Reach("C01.phase.failed-pod-replaced", phase == corev1.PodFailed && created0 == 1)
 }
+
+// ZZ_C01_threePodsOnOneNode: "When a node nevertheless holds several such pods, all but one are deleted
+// and the kept one is a scheduled pod if any, the oldest among those" — with THREE pods on the node, in
+// every listing order (the API lists by name, which says nothing about age) and with the youngest
+// possibly not scheduled yet.  One sync of the active replica set removes exactly the two others.
+func ZZ_C01_threePodsOnOneNode() {
+	c, ds, rsNew, _ := zzStore(1)
+	ds.Status.ActiveReplicaSet = rsNew.Name
+	youngestUnscheduled := nondet.Bool("youngestBoundByAffinityOnly")
+	bind := 0
+	if youngestUnscheduled {
+		bind = 1
+	}
+	oldest := zzPod("oldest", zzNodeName(0), zzRSName, zzHashNew, 0, corev1.PodRunning, true, nondet.Base().Add(-3*3600*1e9))
+	middle := zzPod("middle", zzNodeName(0), zzRSName, zzHashNew, 0, corev1.PodRunning, true, nondet.Base().Add(-2*3600*1e9))
+	newest := zzPod("newest", zzNodeName(0), zzRSName, zzHashNew, bind, corev1.PodRunning, !youngestUnscheduled, nondet.Base().Add(-1*3600*1e9))
+	switch nondet.Int("listingOrder", 0, 5) {
+	case 0:
+		c.Pods = append(c.Pods, oldest, middle, newest)
+	case 1:
+		c.Pods = append(c.Pods, oldest, newest, middle)
+	case 2:
+		c.Pods = append(c.Pods, middle, oldest, newest)
+	case 3:
+		c.Pods = append(c.Pods, middle, newest, oldest)
+	case 4:
+		c.Pods = append(c.Pods, newest, oldest, middle)
+	default:
+		c.Pods = append(c.Pods, newest, middle, oldest)
+	}
+	_, err := zzReconcile(zzReconciler(c, youngestUnscheduled), zzNS, rsNew.Name)
+	nondet.Assert("C01.three.noerror", err == nil)
+	deleted := map[string]bool{}
+	for _, e := range c.Log {
+		if e.Kind == "Pod" && e.Verb == "delete" {
+			deleted[e.Name] = true
+		}
+	}
+	nondet.Assert("C01.three.oldest-scheduled-pod-kept", !deleted["oldest"])
+	nondet.Assert("C01.three.the-two-others-removed", deleted["middle"] && deleted["newest"])
+	nondet.Assert("C01.three.nothing-created", c.Count("create", "Pod") == 0)
+	nondet.Reach("C01.three.oldest-listed-last", !deleted["oldest"] && c.Count("delete", "Pod") == 2)
+}
